@@ -319,6 +319,7 @@ func genPDU(l PDULayout, sb *strings.Builder) {
 	w("		// decode the independently assembled image")
 	w("		src = vCat(fixed, vCat(tlvArea...))")
 	w("	}")
+	w("	if prop == 12 { src = append([]byte(nil), b...) } // the network layer's own buffer")
 	w("	q := new(%s)", T)
 	w("	derr := q.IDecode(src)")
 	w("	vObserveErr(\"derr\", derr)")
@@ -346,11 +347,10 @@ func genPDU(l PDULayout, sb *strings.Builder) {
 	w("		}")
 	w("	}")
 	w("	if prop == 12 {")
-	w("		// the encoder's bytes belong to the caller: a later encode (which may reuse the pooled buffer) does not change them")
-	w("		snap := append([]byte(nil), b...)")
+	w("		// the encoder's bytes belong to the caller: a later encode (which may get the same pooled buffer) must not change them")
 	w("		other := new(%s)", T)
 	w("		_, _ = other.IEncode()")
-	w("		vAssert(%q, vEqBytes(b, snap))", lab("C12", "encoded-bytes-survive-later-encode"))
+	w("		vAssert(%q, vAnd(len(b) >= len(fixed), vEqBytes(b[:vMin(len(fixed), len(b))], fixed)))", lab("C12", "encoded-bytes-survive-release-and-later-encode"))
 	w("	}")
 	w("	vReach(\"end\")")
 	w("}")
